@@ -1303,3 +1303,43 @@ def chain(tier, seed, ci, nc):
 
 
 STREAMS['chain'] = chain
+
+
+def cacheid(tier, seed, ci, nc, count=600):
+    """histories of lookups of a modifiers-decorated method through up to four instances, two of which may compare equal
+    (Model/CacheId.lean): short ones exhaustively, longer ones at random"""
+    rng = _rng(seed, 'cacheid', ci)
+
+    def rand_ops(n):
+        ops, cls = [], {}
+        for _ in range(n):
+            k = rng.choice(['new', 'new', 'get', 'get', 'get', 'call', 'call', 'dropw', 'dropi', 'gc', 'cls'])
+            i = rng.randint(1, 4)
+            if k == 'new':
+                ops.append('new:%d:%d' % (i, cls.setdefault(i, rng.randint(7, 8))))
+            elif k in ('gc', 'cls'):
+                ops.append(k)
+            else:
+                ops.append('%s:%d' % (k, i))
+            if k in ('dropw', 'call', 'dropi'):
+                ops.append('gc')          # CPython frees at once; wrappers may sit in cycles
+        return tuple(ops)
+
+    def gen():
+        base = ('new:1:7', 'new:2:7')
+        alpha = ('get:1', 'get:2', 'call:1', 'call:2', 'dropw:1', 'dropi:1', 'cls')
+        import itertools
+        for L in (1, 2, 3):
+            for h in itertools.product(alpha, repeat=L):
+                ops = list(base)
+                for o in h:
+                    ops.append(o)
+                    if o.split(':')[0] in ('dropw', 'call', 'dropi'):
+                        ops.append('gc')
+                yield ('cacheid', ('kwoargs', 'posoargs', 'autokwoargs')[len(ops) % 3], tuple(ops))
+        for k in range(count):
+            yield ('cacheid', ('kwoargs', 'posoargs', 'autokwoargs')[k % 3], rand_ops(rng.randint(1, 25)))
+    return _slice(gen(), ci, nc)
+
+
+STREAMS['cacheid'] = cacheid
